@@ -217,9 +217,19 @@ Theorem C04_fusedev_run : forall ops st, f_wf st ->
 Proof. exact frun_post. Qed.
 
 (* ================= the Bytes<usize> adapter of FileVolatileSlice is a plain view ================= *)
-(* full statement: every trait method forwards to the VolatileSlice method of the same name *)
+(* full statement: every trait method forwards to the VolatileSlice method of the same name.
+   It was refuted while read_slice forwarded to write_slice (defect D3); since the fix 88a9593 the table
+   regenerated from src/common/file_buf.rs is the identity and the statement is proved outright. *)
 Definition C04_adapter_full : Prop := adapter_full.
-(* it fails exactly when the known defect (read_slice forwards to write_slice, D3) is in the source *)
+Theorem C04_adapter : C04_adapter_full.
+Proof. exact adapter_full_holds. Qed.
+(* every one of the ten trait methods is the plain-view (VolatileSlice) method *)
+Theorem C04_adapter_view_all : forall method, In method bytes_methods ->
+  forall m base size buf addr count,
+  fvs_call bytes_delegation method m base size buf addr count = vs_call method m base size buf addr count.
+Proof. exact adapter_view_every. Qed.
+(* still true, and the way the old defect would show up again: the full statement fails exactly when the pair
+   (read_slice, write_slice) is in the source *)
 Theorem C04_adapter_refuted_iff : ~ C04_adapter_full <-> In ("read_slice", "write_slice")%string bytes_delegation.
 Proof. exact adapter_refuted_iff. Qed.
 Theorem C04_adapter_partial : forall m d, In (m, d) bytes_delegation ->
@@ -307,6 +317,8 @@ Print Assumptions C04_fusedev_split.
 Print Assumptions C04_fusedev_split_content.
 Print Assumptions C04_fusedev_commit.
 Print Assumptions C04_fusedev_run.
+Print Assumptions C04_adapter.
+Print Assumptions C04_adapter_view_all.
 Print Assumptions C04_adapter_refuted_iff.
 Print Assumptions C04_adapter_partial.
 Print Assumptions C04_adapter_methods.
